@@ -326,7 +326,7 @@ class C13(PropCheck):
             "interleavings of their hook actions; non-trivial = the tree contains a nested API call or a raise; "
             "distinct = distinct tree (and schedule)")
     manifest = {
-        "text": "Lean: C13_push_sites (read off the source on every run: extract and extract_outermost hand both options to push unchanged, fill_context pushes (True, False), push restores in a finally around its yield), C13_abort_unwinds / C13_restore_also_on_abort / C13_catch_sees_outer (a BaseException raised by a hook is not contained by the extraction, unwinds through every enclosing one, and every push still restores: a hook that catches it sees the outer options again). Lean theorems over a call-tree model of ExtractOptions.push / extract / extract_outermost / extract_child / fill_context: C13_restore (every call, at any nesting depth and also when it ends in an exception, leaves the thread's options as it found them), C13_observed (every hook observation equals the options of the innermost enclosing extraction), C13_child_guard, C13_stub*, C13_fill_*, and C13_threads (frame rule: under every interleaving of any number of threads each thread's option cell and read history equal its solo run). The model is tied to /repo by executing generated call trees and forced thread interleavings against the real API and diffing hook-visible observations with the model's.",
+        "text": "Lean: C13_push_sites (read off the source on every run: extract and extract_outermost hand both options to push unchanged, fill_context pushes (True, False), push restores in a finally around its yield), C13_gcm_keeps_options (beneath a generator-based manager the options are still the enclosing extraction's), C13_abort_unwinds / C13_restore_also_on_abort / C13_catch_sees_outer (a BaseException raised by a hook is not contained by the extraction, unwinds through every enclosing one, and every push still restores: a hook that catches it sees the outer options again). Lean theorems over a call-tree model of ExtractOptions.push / extract / extract_outermost / extract_child / fill_context: C13_restore (every call, at any nesting depth and also when it ends in an exception, leaves the thread's options as it found them), C13_observed (every hook observation equals the options of the innermost enclosing extraction), C13_child_guard, C13_stub*, C13_fill_*, and C13_threads (frame rule: under every interleaving of any number of threads each thread's option cell and read history equal its solo run). The model is tied to /repo by executing generated call trees and forced thread interleavings against the real API and diffing hook-visible observations with the model's.",
         "note": "Theorems are about the model; agreement model<->code is measured on generated trees (exhaustive small family + random, depth<=4) and 2-4 real threads under forced schedules at hook-action granularity. Preemption inside push() itself is covered only by the frame-rule theorem plus CPython's threading.local semantics (assumed).",
     }
     assumptions = [
@@ -444,8 +444,6 @@ class C13(PropCheck):
     def model_line(self, case):
         d = {"p": "C13", "k": case["k"]}
         if case["k"] == "tree":
-            if has_gcm(case["tree"]):
-                return None      # the contextlib glue between the two extractions is not in the Lean model: reference interpreter only
             d["tree"] = case["tree"]
         else:
             d["trees"] = case["trees"]
